@@ -46,7 +46,8 @@ theorem send_accepts_checked (fields : List Hpack.Field)
          (∃ s p pk pid, (Streams.sendPushPromise s p pk pid fields).2 = .ok ()) ∨
          (∃ s isHead eos p r, (Streams.sendRequest s isHead fields eos p).2 = .ok r)) :
     "connection-specific-field" ∉ Spec.Http.common (wireFields fields) ∧
-    (∀ f, fields.find? (fun f => f.h.1 == Spec.Http.ascii "te") = some f → f.h.2 = Spec.Http.ascii "trailers") := by
+    "te-not-trailers" ∉ Spec.Http.common (wireFields fields) ∧
+    (∀ f ∈ fields, f.h.1 = Spec.Http.ascii "te" → f.h.2 = Spec.Http.ascii "trailers") := by
   have hc : Streams.checkHeaders fields = .ok () := by
     rcases h with ⟨s, id, eos, h⟩ | ⟨s, id, h⟩ | ⟨s, id, h⟩ | ⟨s, p, pk, pid, h⟩ | ⟨s, ih, eos, p, r, h⟩
     · exact sendHeaders_ok s id eos fields h
@@ -54,7 +55,7 @@ theorem send_accepts_checked (fields : List Hpack.Field)
     · exact sendInterim_ok s id fields h
     · exact sendPushPromise_ok s p pk pid fields h
     · exact sendRequest_ok s ih fields eos p r h
-  exact ⟨checkHeaders_ok_spec fields hc, (checkHeaders_ok fields hc).2⟩
+  exact ⟨(checkHeaders_ok_spec fields hc).1, (checkHeaders_ok_spec fields hc).2, (checkHeaders_ok fields hc).2⟩
 
 /-! ### `DynConnection::recv_frame`: the three frame types that can hand something over -/
 
